@@ -68,7 +68,7 @@ def run(ctx):
     quick = ctx.quick()
     rng = ctx.rng
     cases = [{"src": c["src"], "texts": c["texts"]} for c in load_corpus()]
-    regexes = ["@/a+b?/", "@/(a|b)c*/", "@/[a-c]{2,3}/", "@/^a.*$/", "@/(a)(b)?\\1/"]
+    regexes = ["@/a+b?/", "@/(a|b)c*/", "@/[a-c]{2,3}/", "@/^a.*$/", "@/(a)(b)?\\1/", "@/\\w+\\b/", "@/\\ba\\B./", "@/\\W\\w/", "@/\\S+\\s?/"]
     for i in range(500 if quick else 10000):
         g = genprog.ProgGen(rng)
         src = g.program()
@@ -101,6 +101,48 @@ def run(ctx):
                 ok = check_matches(ctx, c["src"], t, ms, True)
                 if ok and ms and "\n" in t:
                     nt.add((c["src"], t))
+    # the same property for FILES: matches found through the 4096-byte sliding window of the file reader are slices of the file's content, with the
+    # closed-form lines and columns - sizes around the window and half-window boundaries, matches in the head, across the boundaries and in the tail
+    def content(n, seed):
+        import random
+        r2 = random.Random(seed)
+        b = []
+        while len(b) < n:
+            b += list("filler text %d " % r2.randint(0, 999)) + (["\n"] if r2.random() < 0.3 else [])
+        b = b[:n]
+        for off in [10, 2040, 4090, n // 2, n - 1200, n - 905, n - 700, n - 300, n - 12]:
+            if 0 <= off and off + 10 <= n:
+                b[off:off + 10] = list("NEEDLE%04d" % (off % 10000))
+        return "".join(b)
+    fprogs = ["find all 'NEEDLE' at least 1 digit", "find all (at least 1 upper) = w (at least 1 digit) = d", "replace all 'NEEDLE' (digit = d) with d '!'", "find all 'E' digit digit"]
+    sizes = [4096, 4097, 5000, 6143, 6144, 6145, 8192, 9001, 12289] if quick else list(range(4090, 4100)) + list(range(4990, 5010)) + list(range(6140, 6150)) + [8191, 8192, 8193, 9001, 10239, 10241, 12289, 16385, 20000]
+    fcases, fmeta = [], []
+    for n in sizes:
+        c = content(n, n)
+        for p in fprogs:
+            fcases.append({"op": "files", "src_hex": vh.hexs(p), "files": [["big.txt", vh.hexs(c)]], "search": ["big.txt"], "mode": "NOTHING"})
+            fmeta.append((p, c))
+    fres = vh.run_cases(fcases, shards=8)
+    fruns = 0
+    for (p, c), r in zip(fmeta, fres):
+        if "panic" in r or r.get("hang") or r.get("oom") or r.get("fatal"):
+            ctx.violation("RunFiles panics or does not return on a %d-byte file" % len(c), {"source": p, "file_bytes": len(c), "outcome": str({k: v for k, v in r.items() if k in ("panic", "hang", "oom", "fatal")})[:300]})
+            continue
+        if "matches" not in r:
+            continue
+        ms = parse_matches(r["matches"])
+        ev += 1
+        fruns += 1
+        if check_matches(ctx, p + "   (on a file of %d bytes)" % len(c), c, ms, True) and ms:
+            nt.add((p, len(c)))
+        # nothing missed either: the literal needle occurs where Python finds it
+        if p == fprogs[0]:
+            import re as pyre
+            want = [(m.start(), m.end()) for m in pyre.finditer(r"NEEDLE[0-9]+", c)]
+            got = [(int(m[2]), int(m[3])) for m in ms]
+            if got != want:
+                ctx.violation("matches found in a file differ from the occurrences in its content", {"source": p, "file_bytes": len(c), "found": got[:12], "occurrences": want[:12]})
+    ctx.coverage["file_runs"] = fruns
     ctx.coverage["evaluations"] = ev
     ctx.coverage["distinct_nontrivial"] = len(nt)
     ctx.coverage["agreement"] = stats
